@@ -30,17 +30,21 @@ CLAIMS = {
   note="The network is not modelled: go-redis Process/Err carry assumed contracts (outcome of a command is an unknown function of the command object; ghost net_acks counts delivered-and-acknowledged commands); lookupOnOwners/lookupOnReplicas/readRepair/asyncPutOnCluster/CheckBootstrap are trusted for shape only; handler and precondition function values carry assumed funcfield contracts; concurrency (interleavings of members) is not explored; async replication mode is not decided.",
   ref="DESIGN.md §4 C05, §9"),
  "C06": dict(
-  text="Proof: the comparison closure of sortVersions orders by write timestamp, newest first (closure verified against its own contract); sortVersions and sanitizeAndSortVersions return the non-nil copies ordered newest first and no gathered copy is newer than the first one (loop invariants, sort.Slice modelled as a permutation ordered by the closure's contract); getOnCluster returns the newest of all gathered copies and hands read repair exactly that winner (precondition of readRepair).",
-  note="sort.Slice is an assumed model (permutation + ordering by the verified less contract); readRepair's effect on the other members and fragmentMergeFunction/mergeFragments are not yet under contract; what remote members answer is not modelled.",
+  text="Proof: the comparison closure of sortVersions orders by write timestamp, newest first (closure verified against its own contract); sortVersions and sanitizeAndSortVersions return the non-nil copies ordered newest first and no gathered copy is newer than the first one (loop invariants, sort.Slice modelled as a permutation ordered by the closure's contract); getOnCluster returns the newest of all gathered copies and hands read repair exactly that winner together with ALL gathered versions (ghost record of readRepair's arguments); lookupOnOwners asks every previous owner of the partition (ghost lookup counter, loop invariant); fragmentMergeFunction keeps the newer of the stored and the incoming entry (stored timestamp = maximum, value/expiry of that copy, other keys untouched), which makes merging order-independent and idempotent.",
+  note="sort.Slice is an assumed model (permutation + ordering by the verified less contract); readRepair's own effect on the other members, lookupOnReplicas, lookupOnPreviousOwner and storage.Import's iteration are trusted/assumed; what remote members answer is not modelled; ties keep either copy.",
   ref="DESIGN.md §4 C06, §9"),
  "C09": dict(
   text="Proof over an explicit ghost clock (every time.Now() reads it, monotone): isKeyExpired(ttl) is exactly ttl != 0 && now/1e6 >= ttl; prepareTTL yields the documented expiry for EX/PX/EXAT/PXAT/default timeout/none; checkPutConditions treats a dead key as absent for NX and as missing for XX and Expire; putEntryOnFragment replaces the entry, or with OnlyUpdateTTL changes only expiry and timestamp of an existing key; putOnCluster (single-copy path) stores value and an expiry between ttlFor(clock at call) and ttlFor(clock at return), clears the expiry for a plain Put, keeps the value for Expire, and refuses NX on a live key / XX and Expire on a dead or missing key without changing anything; getOnCluster never returns an entry that was already dead when the call started; the storage engine's GetTTL/UpdateTTL are proved at table and kvstore level.",
-  note="The engine is seen through assumed abstract contracts on storage.Engine (specs/engine.vc; kvstore is verified separately against its own vocabulary, the refinement between the two is argued, not machine-checked); durations are assumed non-negative and below 2^62 ns; setLRUEvictionStats is trusted to only delete keys; GetPut/Incr/Decr (atomic.go), the eviction worker and the replica read path are not yet under contract; wall-clock is the ghost clock (no skew).",
+  note="The engine is seen through assumed abstract contracts on storage.Engine (specs/engine.vc; kvstore is verified separately against its own vocabulary, the refinement between the two is argued, not machine-checked); durations are assumed non-negative and below 2^62 ns; atomicIncrDecr hands the remaining life time of the value it read to the write (PX + clock reading == ttl, ms resolution); GetPut, the eviction worker and the replica read path are not yet under contract; wall-clock is the ghost clock (no skew).",
   ref="DESIGN.md §4 C09, §9"),
  "C15": dict(
-  text="Proof at the two translation points of the forwarding path: writePutCommand sends an Expire as DM.PEXPIRE and everything else as DM.PUT carrying the NX/XX condition, the first expiry form and the payload; putCommandHandler decodes every option of the parsed command into the PutConfig in every combination (condition together with an expiry form), with exact millisecond conversions.",
-  note="The wire itself (go-redis serialisation, redcon parsing, strconv) is outside the verifier's reach: Put.Command/PExpire.Command are trusted for the command kind; ParsePutCommand's token loop, the cluster client's own writePutCommand, multi-key Delete and the pipeline are not yet under contract; float second conversions (EX/EXAT) are only checked for presence, not value.",
+  text="Proof at the two translation points of the forwarding path: writePutCommand sends an Expire as DM.PEXPIRE and everything else as DM.PUT carrying the NX/XX condition, the first expiry form and the payload; putCommandHandler decodes every option of the parsed command into the PutConfig in every combination (condition together with an expiry form), with exact millisecond and (real-arithmetic) second conversions; deleteKeys processes every owner group before reporting success and reports the number of keys named; delCommandHandler serves DM.DEL through deleteKeys (ghost routing counter).",
+  note="The wire itself (go-redis serialisation, redcon parsing, strconv) is outside the verifier's reach: Put.Command/PExpire.Command are trusted for the command kind; ParsePutCommand's token loop, the cluster client's own writePutCommand and the pipeline are not yet under contract; deleteKey is trusted; floating point is treated as real arithmetic.",
   ref="DESIGN.md §4 C15, §9"),
+ "C10": dict(
+  text="Proof of the inductive step of the key-count bound and of the idleness direction: evictKeyWithLRU samples between 1 and LRUSamples present keys whenever the fragment is not empty (callback iteration modelled as a loop over the literal's body, so a Put never fails for lack of a victim), orders them by last access (sort.Slice ordered by the verified less contract) and evicts the least recently used of the samples, removing exactly one key and touching nothing else; setLRUEvictionStats leaves a fragment that was within its share max(1, MaxKeys/owned) strictly below it (and never calls eviction on an empty fragment); putOnCluster (single-copy path) therefore keeps the fragment within its share after every Put, and the key just written is present; isKeyIdleOnFragment reports idle only when a full idle window has elapsed since the last access and does report it once the window has elapsed.",
+  note="The byte bound (MaxInuse with equally sized entries) is not decided (needs the engine's size accounting at the abstract level); stable membership is assumed (ownedPartitionCount constant across the call); deleteOnCluster is trusted for its effect on the local fragment; the background eviction worker (scanFragmentForEviction) and 'eventually disappears' (liveness) are not decided; storage.Engine.Range/Stats are assumed abstract contracts.",
+  ref="DESIGN.md §4 C10, §9"),
 }
 
 NA_DEFAULT = "contract-decidable core not yet under contract in this tree (engine and storage layers first); no other technique substituted"
